@@ -16,7 +16,7 @@
     regenerated Gen/GenSession.v (STARTTLS row) and Gen/GenTls.v (guards, order
     of calls) and are re-checked by computation here. *)
 From Qv Require Import Common.Bytes Gen.GenNetio Gen.GenSession Gen.GenTls Model.NetRead Model.Session
-  Spec.SessionSpec Proofs.SessionProofs Model.TlsSwitch Spec.TlsSpec.
+  Spec.SessionSpec Proofs.SessionProofs Proofs.AuthSync Proofs.EsmtpSync Model.TlsSwitch Spec.TlsSpec.
 From Coq Require Import Lia ZArith.
 
 (** ---------- facts regenerated from the C ---------- *)
@@ -194,7 +194,8 @@ Qed.
 (** ---------- what a round leaves of the session ---------- *)
 Definition same_session (s' s : sstate) : Prop :=
   comstate s' = comstate s /\ esmtp s' = esmtp s /\ helostr s' = helostr s /\ mailfrom s' = mailfrom s
-  /\ rcpts s' = rcpts s /\ rcptcount s' = rcptcount s /\ goodrcpt s' = goodrcpt s /\ relayclient s' = relayclient s.
+  /\ rcpts s' = rcpts s /\ rcptcount s' = rcptcount s /\ goodrcpt s' = goodrcpt s /\ relayclient s' = relayclient s
+  /\ authname s' = authname s.
 
 Lemma same_refl s : same_session s s.
 Proof. unfold same_session. auto 10. Qed.
@@ -224,8 +225,13 @@ Qed.
 
 Lemma R_same o s' s a : same_session s' s -> R o s a -> R o s' a.
 Proof.
-  unfold same_session, R. intros (E1 & _ & _ & E4 & E5 & E6 & E7 & E8). rewrite E1, E4, E5, E6, E7, E8. auto.
+  unfold same_session, R. intros (E1 & _ & _ & E4 & E5 & E6 & E7 & E8 & _). rewrite E1, E4, E5, E6, E7, E8. auto.
 Qed.
+
+Lemma authed_same s' s : same_session s' s -> authed s' = authed s.
+Proof. unfold same_session, authed. intros (_ & _ & _ & _ & _ & _ & _ & _ & E). rewrite E. reflexivity. Qed.
+Lemma K_same s' s b : same_session s' s -> K s b -> K s' b.
+Proof. unfold same_session, K. intros (Ec & Ee & _). rewrite Ec, Ee. auto. Qed.
 
 (** ---------- one round, in normal form ---------- *)
 Lemma tstep_cases f o closes t evs so : tstep f o closes t = (evs, so) ->
@@ -651,60 +657,69 @@ Qed.
 
 Lemma R_after_switch oc s r :
   mailfrom s = [] -> rcpts s = [] -> rcptcount s = 0 -> goodrcpt s = 0 -> Irel oc (relayclient s) ->
-  R oc (set_badcmds (set_comstate (set_rd s r) 1%N) 0) a_init.
+  forall a, R oc (set_badcmds (set_comstate (set_rd s r) 1%N) 0) (a_reset a).
 Proof.
-  intros Hmf Hrc Hn Hg Hi. split; [|exact Hi].
+  intros Hmf Hrc Hn Hg Hi a. split; [|exact Hi].
   cbn [set_badcmds set_comstate set_rd comstate mailfrom rcpts rcptcount goodrcpt].
-  rewrite Hmf, Hrc, Hn, Hg. unfold Rc, a_init. cbn. repeat split; auto.
+  rewrite Hmf, Hrc, Hn, Hg. unfold Rc, a_reset. cbn. repeat split; auto.
 Qed.
 
-Theorem tstep_inv f o closes t a evs so : R (o_clear o) (ss t) a -> tstep f o closes t = (evs, so) ->
-  exists a', ttrace_run (o_clear o) evs a = Some a' /\ (forall t', so = Some t' -> R (o_clear o) (ss t') a').
+Theorem tstep_inv f o closes t a evs so : R (o_clear o) (ss t) a -> a_auth a = authed (ss t) -> K (ss t) (a_esmtp a) ->
+  tstep f o closes t = (evs, so) ->
+  exists a', ttrace_run (o_clear o) evs a = Some a'
+    /\ (forall t', so = Some t' -> R (o_clear o) (ss t') a' /\ a_auth a' = authed (ss t') /\ K (ss t') (a_esmtp a')).
 Proof.
-  intros HR Hstep.
+  intros HR HA HK Hstep.
   destruct (tstep_cases _ _ _ _ _ _ Hstep) as [(e0 & so0 & Hs & -> & -> & _)|(l & r' & i & row & ev1 & h & t1 & Hread & Hrow & _)].
   - assert (HR' : R (orc o (tls t)) (ss t) a) by exact HR.
-    destruct (step_spec _ _ _ _ _ _ HR' Hs) as (a' & Htr & _ & Hnext).
+    destruct (step_spec _ _ _ _ _ _ HR' HA HK Hs) as (a' & Htr & _ & Hnext).
     exists a'. split.
     + rewrite ttrace_run_app, ttrace_run_tag, <- (trace_run_orc o (tls t)), Htr.
       apply tquiet_trace. destruct (offer_cases o t e0 so0) as [E|E]; rewrite E; reflexivity.
     + intros t' Ht. destruct so0 as [s'|]; [|discriminate]. inversion Ht; subst. cbn [mk ss].
-      destruct (Hnext s' eq_refl) as (HRs & _). exact HRs.
+      destruct (Hnext s' eq_refl) as (HRs & _). split; [exact HRs|]. split.
+      * rewrite (trace_run_auth _ _ _ _ Htr), (step_auth _ _ _ _ _ Hs), HA. reflexivity.
+      * rewrite (trace_run_esm _ _ _ _ Htr). exact (step_esm _ _ _ _ _ _ Hs HK).
   - destruct (starttls_round _ _ _ _ _ _ _ _ _ _ Hstep Hread Hrow) as [(Ht & He & Hi & Hm & Hinn & Hcur & [Hsw|Hf])|Hr].
-    + destruct Hsw as (segs & l' & _ & -> & ->). exists a_init. split; [reflexivity|].
+    + destruct Hsw as (segs & l' & _ & -> & ->). exists (a_reset a). split; [reflexivity|].
       intros t' Hx. inversion Hx; subst. cbn [ss].
       assert (HRs : R (o_clear o) (set_rd (ss t) r') a) by exact HR.
       destruct (R_ehlo_state _ _ _ HRs Hm) as (_ & Hmf & Hrc & Hn & Hg).
-      apply (R_after_switch (o_clear o) (set_rd (ss t) r')); auto. exact (proj2 HRs).
+      split; [apply (R_after_switch (o_clear o) (set_rd (ss t) r')); auto; exact (proj2 HRs)|]. split.
+      * cbn [a_reset a_auth]. exact HA.
+      * cbn [a_reset a_esmtp]. split; cbn [set_badcmds set_comstate set_rd esmtp comstate]; [exact (proj1 HK)|discriminate].
     + exists a. split; [apply tquiet_trace; exact (failed_tquiet _ _ _ _ _ _ Hf)|].
       intros t' Hx. unfold round_failed in Hf.
       destruct (handshake _ _ _ _) as [? ?|a0 e' l'| | |]; [contradiction| | | |].
       * destruct Hf as (ev & so' & Ho & _ & ->). destruct so' as [s'|]; [|discriminate]. inversion Hx; subst. cbn [ss].
-        eapply R_same; [eapply on_error_same; exact Ho|]. exact HR.
+        pose proof (on_error_same _ _ _ _ Ho) as Hsame.
+        split; [eapply R_same; [exact Hsame|]; exact HR|]. split; [rewrite (authed_same _ _ Hsame); exact HA|exact (K_same _ _ _ Hsame HK)].
       * destruct Hf as (ev & so' & Ho & _ & ->). destruct so' as [s'|]; [|discriminate]. inversion Hx; subst. cbn [ss].
-        eapply R_same; [eapply on_error_same; exact Ho|]. exact HR.
+        pose proof (on_error_same _ _ _ _ Ho) as Hsame.
+        split; [eapply R_same; [exact Hsame|]; exact HR|]. split; [rewrite (authed_same _ _ Hsame); exact HA|exact (K_same _ _ _ Hsame HK)].
       * destruct Hf as (_ & ->). discriminate.
       * destruct Hf as (_ & ->). discriminate.
     + destruct Hr as ((e & -> & Hq & _) & Hs). exists a. split; [apply tquiet_trace, tquiet_tag; exact Hq|].
-      intros t' Hx. destruct (Hs t' Hx) as (_ & _ & Hsame). eapply R_same; [exact Hsame|]. exact HR.
+      intros t' Hx. destruct (Hs t' Hx) as (_ & _ & Hsame).
+      split; [eapply R_same; [exact Hsame|]; exact HR|]. split; [rewrite (authed_same _ _ Hsame); exact HA|exact (K_same _ _ _ Hsame HK)].
 Qed.
 
-Theorem tserve_inv fuel o closes : forall t a, R (o_clear o) (ss t) a ->
+Theorem tserve_inv fuel o closes : forall t a, R (o_clear o) (ss t) a -> a_auth a = authed (ss t) -> K (ss t) (a_esmtp a) ->
   ttrace_run (o_clear o) (tserve fuel o closes t) a <> None.
 Proof.
-  induction fuel as [|f IH]; intros t a HR; cbn [tserve]; [cbn; discriminate|].
+  induction fuel as [|f IH]; intros t a HR HA HK; cbn [tserve]; [cbn; discriminate|].
   destruct (tstep f o closes t) as [ev so] eqn:Es.
-  destruct (tstep_inv _ _ _ _ _ _ _ HR Es) as (a' & Htr & Hnext).
+  destruct (tstep_inv _ _ _ _ _ _ _ HR HA HK Es) as (a' & Htr & Hnext).
   rewrite ttrace_run_app, Htr.
   destruct so as [t'|].
-  - apply IH. apply Hnext. reflexivity.
+  - destruct (Hnext t' eq_refl) as (HR' & HA' & HK'). apply IH; assumption.
   - destruct (closes && no_later t); cbn; discriminate.
 Qed.
 
 Theorem reset_after_switch o sc : ttrace_ok (o_clear o) (trun o sc).
 Proof.
   unfold ttrace_ok, trun. cbn [ttrace_run trace_step].
-  apply tserve_inv. unfold tinit. cbn [ss]. split.
+  apply tserve_inv; [|reflexivity|split; discriminate]. unfold tinit. cbn [ss]. split.
   - unfold init_state, Rc, a_init. cbn. repeat split; auto.
   - unfold Irel, init_state. cbn. discriminate.
 Qed.
@@ -720,7 +735,8 @@ Proof.
   - inversion H; subst. left. split; assumption.
   - inversion H; subst. left. split; assumption.
   - destruct n; try (rewrite ?Hp, ?Ht in H; discriminate);
-      try (inversion H; subst; left; split; assumption).
+      try (inversion H; subst; left; split; assumption);
+      try (destruct (negb (a_esmtp a)); [discriminate|]; inversion H; subst; left; split; assumption).
     + inversion H; subst. rewrite Hp. left. split; reflexivity.
     + right. reflexivity.
 Qed.
@@ -739,13 +755,13 @@ Proof.
       destruct (nothing_yet_step _ _ _ _ Hn Est) as [Hn2| ->].
       * apply (Cons a2); assumption.
       * right. exists [], r, b. reflexivity.
-    + apply (Cons a_init); [split; reflexivity|exact H].
+    + apply (Cons (a_reset a)); [split; reflexivity|exact H].
 Qed.
 
 Lemma ttrace_split oc pre rest : ttrace_run oc (pre ++ TSwitch :: rest) a_init <> None ->
-  ttrace_run oc rest a_init <> None.
+  exists a0, ttrace_run oc pre a_init = Some a0 /\ ttrace_run oc rest (a_reset a0) <> None.
 Proof.
-  rewrite ttrace_run_app. destruct (ttrace_run oc pre a_init); [|congruence]. cbn [ttrace_run]. auto.
+  rewrite ttrace_run_app. destruct (ttrace_run oc pre a_init) as [a0|]; [|congruence]. cbn [ttrace_run]. eauto.
 Qed.
 
 Lemma ttrace_prefix oc p q a : ttrace_run oc (p ++ q) a <> None ->
@@ -760,8 +776,8 @@ Theorem mail_needs_new_greeting o sc pre mid b f post :
   exists m1 m2 b', mid = m1 ++ TE b' (Note NHelo) :: m2.
 Proof.
   intros E. pose proof (reset_after_switch o sc) as Hok. unfold ttrace_ok in Hok. rewrite E in Hok.
-  apply ttrace_split in Hok. apply ttrace_prefix in Hok as (a1 & Hmid & Hrest).
-  assert (Hny : nothing_yet a_init) by (split; reflexivity).
+  apply ttrace_split in Hok as (a0 & _ & Hok). apply ttrace_prefix in Hok as (a1 & Hmid & Hrest).
+  assert (Hny : nothing_yet (a_reset a0)) by (split; reflexivity).
   destruct (nothing_yet_run _ _ _ _ Hny Hmid) as [[Hp _]|Hex]; [|exact Hex].
   exfalso. apply Hrest. cbn [ttrace_run trace_step]. rewrite Hp. reflexivity.
 Qed.
@@ -769,14 +785,15 @@ Qed.
 (** a hand-off after the handshake carries exactly the transaction built from what was accepted after the handshake *)
 Theorem handoff_after_switch o sc pre mid b env msg post :
   trun o sc = pre ++ TSwitch :: mid ++ TE b (Handoff env msg) :: post ->
-  exists a f rs, ttrace_run (o_clear o) mid a_init = Some a /\ a_txn a = Some (f, rs) /\ env = env_of (o_liphost (o_clear o)) (Some (f, rs)).
+  exists a0 a f rs, ttrace_run (o_clear o) pre a_init = Some a0 /\ ttrace_run (o_clear o) mid (a_reset a0) = Some a
+    /\ a_txn a = Some (f, rs) /\ env = env_of (o_liphost (o_clear o)) (Some (f, rs)).
 Proof.
   intros E. pose proof (reset_after_switch o sc) as Hok. unfold ttrace_ok in Hok. rewrite E in Hok.
-  apply ttrace_split in Hok. apply ttrace_prefix in Hok as (a1 & Hmid & Hrest).
+  apply ttrace_split in Hok as (a0 & Hpre & Hok). apply ttrace_prefix in Hok as (a1 & Hmid & Hrest).
   cbn [ttrace_run trace_step] in Hrest.
   destruct (a_txn a1) as [[f rs]|] eqn:Et; [|congruence].
   destruct (bytes_eqb env (env_of (o_liphost (o_clear o)) (Some (f, rs)))) eqn:Eb; [|congruence].
-  apply bytes_eqb_eq in Eb. exists a1, f, rs. auto.
+  apply bytes_eqb_eq in Eb. exists a0, a1, f, rs. auto.
 Qed.
 
 (** ---------- shape of the trace: clear text, then at most one switch, then TLS only ---------- *)
@@ -884,17 +901,18 @@ Definition fresh_in_tls (t' : tstate) (segs : list bytes) : Prop :=
   /\ rcptcount (ss t') = 0 /\ goodrcpt (ss t') = 0 /\ badcmds (ss t') = 0.
 
 Lemma tserve_factor fuel o closes : forall t a pre post,
-  R (o_clear o) (ss t) a -> tls t = false -> tserve fuel o closes t = pre ++ TSwitch :: post ->
+  R (o_clear o) (ss t) a -> a_auth a = authed (ss t) -> K (ss t) (a_esmtp a) -> tls t = false -> tserve fuel o closes t = pre ++ TSwitch :: post ->
   exists f' t' segs, post = TE true (Note NBadReset) :: tserve f' o closes t' /\ fresh_in_tls t' segs.
 Proof.
-  induction fuel as [|f IH]; intros t a pre post HR Ht E; cbn [tserve] in E.
+  induction fuel as [|f IH]; intros t a pre post HR HA HK Ht E; cbn [tserve] in E.
   { destruct pre as [|p [|q pre]]; discriminate. }
   destruct (tstep f o closes t) as [ev so] eqn:Es.
   destruct (tstep_in_clear _ _ _ _ _ _ Ht Es) as [(Hev & Hn)|(Hev & t' & Hso & Ht')].
   - destruct (split_behind TSwitch ev _ pre post (in_clear_no_switch _ Hev) E) as (pre' & -> & Erest).
     destruct so as [t1|].
-    + destruct (tstep_inv _ _ _ _ _ _ _ HR Es) as (a' & _ & Hnext).
-      apply (IH t1 a' pre' post); [apply Hnext; reflexivity|apply Hn; reflexivity|exact Erest].
+    + destruct (tstep_inv _ _ _ _ _ _ _ HR HA HK Es) as (a' & _ & Hnext).
+      destruct (Hnext t1 eq_refl) as (HR1 & HA1 & HK1).
+      apply (IH t1 a' pre' post); [exact HR1|exact HA1|exact HK1|apply Hn; reflexivity|exact Erest].
     + exfalso. destruct (closes && no_later t); destruct pre' as [|p [|q pre']]; discriminate.
   - assert (Hin : In TSwitch ev) by (rewrite Hev; right; left; reflexivity).
     destruct (no_cleartext_at_switch _ _ _ _ _ _ Es Hin) as (l & r' & segs & l' & Hread & _ & _ & _ & _ & _ & _ & _ & Hm & _ & Hso').
@@ -921,8 +939,18 @@ Theorem after_switch_only_tls_input o sc pre post : trun o sc = pre ++ TSwitch :
 Proof.
   unfold trun. generalize (tfuel sc) as fu. intros fu E.
   destruct pre as [|p pre]; cbn [app] in E; [discriminate|]. injection E as _ E'.
-  apply (tserve_factor fu o (sc_closes sc) (tinit sc) a_init pre post); [|reflexivity|exact E'].
+  apply (tserve_factor fu o (sc_closes sc) (tinit sc) a_init pre post); [|reflexivity|split; discriminate|reflexivity|exact E'].
   unfold tinit. cbn [ss]. split.
   - unfold init_state, Rc, a_init. cbn. repeat split; auto.
   - unfold Irel, init_state. cbn. discriminate.
+Qed.
+
+(** ---------- what the switch does NOT discard ---------- *)
+(** tls_init does not touch xmitstat.authname: an authentication obtained in clear text stays valid inside TLS *)
+Theorem auth_survives_switch f o closes t evs t' : tstep f o closes t = (evs, Some t') -> In TSwitch evs ->
+  authname (ss t') = authname (ss t).
+Proof.
+  intros Hstep Hin.
+  destruct (no_cleartext_at_switch _ _ _ _ _ _ Hstep Hin) as (l & r' & segs & l' & _ & _ & _ & _ & _ & _ & _ & _ & _ & _ & Hso).
+  inversion Hso; subst. reflexivity.
 Qed.
